@@ -1449,3 +1449,124 @@ impl SolverState {
         })
     }
 }
+
+#[cfg(feature = "verif-hooks")]
+impl<D: DependencyProvider, RT: AsyncRuntime> Solver<D, RT> {
+    /// Returns a dump of the clause database, the variables and the
+    /// assignment history of the last call to [`Solver::solve`].
+    pub fn verif_dump(&self) -> crate::verif::VerifDump {
+        use crate::verif::{VerifClause, VerifClauseKind, VerifDump, VerifOrigin};
+        use variable_map::VariableOrigin;
+
+        let state = &self.state;
+        let var = |v: VariableId| v.to_usize() as u32;
+        let clauses = state
+            .clauses
+            .kinds
+            .iter()
+            .map(|clause| {
+                let mut literals = Vec::new();
+                let mut candidates = Vec::new();
+                let mut learnt_why = Vec::new();
+                if let Clause::InstallRoot = clause {
+                    literals.push((var(VariableId::root()), true));
+                } else {
+                    clause.visit_literals(
+                        &state.learnt_clauses,
+                        &state.requirement_to_sorted_candidates,
+                        |literal| literals.push((var(literal.variable()), !literal.negate())),
+                    );
+                }
+                let kind = match *clause {
+                    Clause::InstallRoot => VerifClauseKind::InstallRoot,
+                    Clause::Requires(parent, requirement) => {
+                        if let Some(per_version_set) =
+                            state.requirement_to_sorted_candidates.get(&requirement)
+                        {
+                            candidates = per_version_set
+                                .iter()
+                                .map(|c| c.iter().copied().map(var).collect())
+                                .collect();
+                        }
+                        match requirement {
+                            Requirement::Single(version_set) => VerifClauseKind::RequiresSingle {
+                                parent: var(parent),
+                                version_set: version_set.to_usize() as u32,
+                            },
+                            Requirement::Union(union) => VerifClauseKind::RequiresUnion {
+                                parent: var(parent),
+                                union: union.to_usize() as u32,
+                            },
+                        }
+                    }
+                    Clause::ForbidMultipleInstances(_, _, name) => {
+                        VerifClauseKind::ForbidMultiple {
+                            name: name.to_usize() as u32,
+                        }
+                    }
+                    Clause::Constrains(parent, forbidden, version_set) => {
+                        VerifClauseKind::Constrains {
+                            parent: var(parent),
+                            forbidden: var(forbidden),
+                            version_set: version_set.to_usize() as u32,
+                        }
+                    }
+                    Clause::Lock(locked, other) => VerifClauseKind::Lock {
+                        locked: var(locked),
+                        other: var(other),
+                    },
+                    Clause::Learnt(learnt_id) => {
+                        if let Some(why) = state.learnt_why.get(learnt_id) {
+                            learnt_why = why.iter().map(|c| c.to_usize() as u32).collect();
+                        }
+                        VerifClauseKind::Learnt
+                    }
+                    Clause::Excluded(variable, reason) => VerifClauseKind::Excluded {
+                        var: var(variable),
+                        reason: reason.to_usize() as u32,
+                    },
+                };
+                VerifClause {
+                    kind,
+                    literals,
+                    candidates,
+                    learnt_why,
+                }
+            })
+            .collect();
+
+        let origins = (0..state.variable_map.verif_count())
+            .map(
+                |idx| match state.variable_map.origin(VariableId::from_usize(idx)) {
+                    VariableOrigin::Root => VerifOrigin::Root,
+                    VariableOrigin::Solvable(solvable) => {
+                        VerifOrigin::Solvable(solvable.to_usize() as u32)
+                    }
+                    VariableOrigin::ForbidMultiple(name) => {
+                        VerifOrigin::ForbidMultiple(name.to_usize() as u32)
+                    }
+                },
+            )
+            .collect();
+
+        let trail = state
+            .decision_tracker
+            .stack()
+            .map(|d| {
+                (
+                    var(d.variable),
+                    d.value,
+                    state.decision_tracker.level(d.variable),
+                    d.derived_from.to_usize() as u32,
+                )
+            })
+            .collect();
+
+        VerifDump {
+            clauses,
+            origins,
+            events: state.decision_tracker.verif_events.clone(),
+            trail,
+        }
+    }
+}
